@@ -289,13 +289,15 @@ Definition dup_listener_res (p : phase) (found lis_open : bool) : result :=
   | r => r
   end.
 
-(* Engine.Register: result and whether a worker is submitted (and whether it has to dial) *)
+(* Engine.Register: result and whether a worker is submitted, and whether its first step can fail:
+   for an address the dial, for a connection handed in by the caller the duplication of its
+   descriptor (it fails when the caller has already closed the connection) *)
 Definition register_res (p : phase) (started : bool) (t : target) : result * option bool :=
   match validate p with
   | RNil =>
       if negb started then (REmpty, None)
       else match t with
-           | TgtConn => (RNil, Some false)
+           | TgtConn => (RNil, Some true)
            | TgtAddr => (RNil, Some true)
            | TgtNone => (RInvalidAddr, None)
            end
@@ -309,7 +311,7 @@ Definition el_register_res (insd addr_nil : bool) : result * option bool :=
 
 Definition el_enroll_res (insd conn_nil : bool) : result * option bool :=
   if insd then (RInShutdown, None)
-  else if conn_nil then (RInvalidConn, None) else (RNil, Some false).
+  else if conn_nil then (RInvalidConn, None) else (RNil, Some true).
 
 (* returns the result and whether the task is enqueued *)
 Definition execute_res (insd nil_runnable trigger_fails : bool) : result * bool :=
